@@ -380,6 +380,20 @@ theorem primitives_factor_through_canon (k : KState) (h : k.toV.Inv) :
   ⟨KState.count_factors k h, KState.idxOf_factors k, KState.append_factors k, KState.pop_factors k,
     KState.relabelOne_factors k⟩
 
+/-- histories of append / auto-append / pop / clear / relabel-as-integers over *objects* (numeric aliases included):
+    the object-level state abstracts, step by step and flag by flag, to the label-level run of the canonicalised
+    operations, the invariant holds throughout, `index`, the auto label and iteration factor through `canon` -/
+theorem object_history_factors (k : KState) (h : k.toV.Inv) (ops : List KState.KOp) :
+    ((ops.foldl (fun k op => (k.step op).1) k).toV =
+        (ops.map KState.KOp.toOp).foldl (fun s op => (s.step op).1) k.toV ∧
+      (ops.foldl (fun k op => (k.step op).1) k).toV.Inv) ∧
+    (∀ op, ((k.step op).1.toV, (k.step op).2) = k.toV.step op.toOp) ∧
+    (∀ v, k.index? v = k.toV.index? (PyKey.canon v)) ∧
+    PyKey.canon k.autoLabel = k.toV.autoLabel ∧
+    (List.range k.stop).map (fun i => PyKey.canon (k.labelAt i)) = k.toV.abs :=
+  ⟨KState.history_factors ops k h, KState.step_factors k h, KState.index?_factors k h, KState.autoLabel_factors k h,
+    KState.abs_factors k⟩
+
 /-- hence membership / `count` of any alias is list membership of its canonical label -/
 theorem alias_count_iff_mem (k : KState) (h : k.toV.Inv) (v : PyKey) :
     k.count v = true ↔ PyKey.canon v ∈ k.toV.abs := by
@@ -415,4 +429,6 @@ section Axioms
 #print axioms C13.history2_refines
 #print axioms C13.key_equality_is_canon
 #print axioms C13.primitives_factor_through_canon
+#print axioms C13.object_history_factors
+#print axioms C13.relabel_raises_iff_merge
 end Axioms
